@@ -158,9 +158,20 @@ def stage_constructors(ctx, exe):
                       {"stage": "constructors", "diff": d, "rc": rc}, no_input=d is None)
 
 
+def site_ok(fid, rc, err):
+    """the call-site half of a signature: where the run died must be the site the finding names"""
+    if fid == "F5":
+        return rc != "timeout" and "pffft" in err
+    if fid == "F22":
+        return rc == "timeout" or "vr32.c" in err
+    if fid == "F26":
+        return rc != "timeout"
+    return True
+
+
 def classify_dead(ctx, u, known, stage):
     """a unit whose process died or hung: known finding by signature, else a violation with the failing input"""
-    hits = [h for h in sig_known(u) if h in known]
+    hits = [h for h in sig_known(u) if h in known and site_ok(h, u.rc, u.err)]
     what = "hang (no answer within the watchdog)" if u.rc == "timeout" else "crash (exit %s): %s" % (u.rc, u.err[-600:])
     if hits:
         ctx.known(hits[0], known[hits[0]]["what"])
@@ -470,7 +481,7 @@ def stage_working(ctx, units, nmax, known):
                 if "err=-" not in h:
                     bad = "error recorded during a plain stream: %s" % h[:200]
         if bad:
-            hits = [h for h in pre + cr.classify_known(tr.plan, tcfg) if h in known or h in ("F1", "F3")]
+            hits = [h for h in pre + cr.classify_known(tr.plan, tcfg) if (h in known and site_ok(h, tr.rc, tr.err)) or h in ("F1", "F3")]
             if hits and hits[0] in known:
                 ctx.known(hits[0], known[hits[0]]["what"]); ctx.hist("known_hits", hits[0])
             elif hits:
